@@ -39,6 +39,31 @@ def run(ctx):
     ctx.check(const_value(ctx, C + "MAX_PEERS") == 10, "C31.K.max-peers", C + "MAX_PEERS", "MAX_PEERS = 10", key="C31.K.max-peers")
     mh = [c for c in ctx.facts.crates["lumina_node"].meta["consts"] if c["path"].endswith("::MIN_HEAD_RESPONSES")]
     ctx.check(len(mh) == 1 and mh[0].get("v") == 2, "C31.K.min-head", C + "MIN_HEAD_RESPONSES", "MIN_HEAD_RESPONSES = 2", key="C31.K.min-head")
+    # best-head rule: when the candidates are put in order by a sort key (today's idiom), the key is
+    # (height, number of reporting peers), descending - so that the first candidate with enough reporters
+    # is the HIGHEST one. Other idioms (filter then max_by_key) have no sort key and are not judged here.
+    from engine.mir import walk as _walk
+    for q in ctx.facts.family(H + "schedule_head_request"):
+        qb = ctx.fn(q)
+        for blk in qb.call_sites(["*sort_unstable_by_key", "*sort_by_key", "*sort_by_cached_key"]):
+            clos = [n[1] for n in _walk(call_expr(qb, blk)) if n[0] == "closure"]
+            for cd in clos:
+                cb = ctx.fn(cd)
+                if cb is None:
+                    continue
+                for x in exit_sites(cb):
+                    tup = None
+                    rev = False
+                    for n in _walk(x["expr"]):
+                        if n[0] == "agg" and str(n[1]).endswith("Reverse"):
+                            rev = True
+                        if n[0] == "agg" and n[1] == "tuple" and tup is None:
+                            tup = n
+                    if tup is None or len(tup[3]) < 2:
+                        continue
+                    first, second = ctx.leaves(tup[3][0]), ctx.leaves(tup[3][1])
+                    ok = rev and has_leaf(first, "call:*ExtendedHeader::height") and not has_leaf(second, "call:*ExtendedHeader::height") and has_leaf(second, "counter")
+                    ctx.check(ok, "C31.best.sort-key", cb.path, "head candidates are ordered by (height, reporters) descending - height is the major key", site=x["loc"], key="C31.best.sort-key")
     p = ctx.anchor(H + "poll", main=False)
     if p:
         sends = [b for b in call_sites_with(ctx, p, ["*OneshotSender*::maybe_send_ok"]) if has_leaf(ctx.leaves(call_expr(p, b)), "a1.head_reqs")]
